@@ -5,6 +5,8 @@ import Mathlib.Tactic.Linarith
 import Mathlib.Tactic.LinearCombination
 import Mathlib.Tactic.FieldSimp
 import Mathlib.Tactic.Push
+import Mathlib.Data.List.Nodup
+import Mathlib.Data.List.Perm.Basic
 /-! Helper lemmas for C03 (`Props/C03.lean`): the Python-slice specification of the translated
 `stdSliceIndices` (T2), vector algebra over ℚ (Gram / Cramer identities, normal of an orthonormal frame),
 minimum/maximum folds, and the read-back of positions lying on a line (`volumePositions_line`). -/
@@ -400,7 +402,7 @@ theorem normHint_pos {sp : Rat} (hsp : 0 < sp) : normHint (some sp) = .ok (some 
 
 theorem volumePositions_cons2 (a b : V3) (l : List V3) (rowCos colCos : V3) (h : Rat) (hh : 0 < h) (am : Bool) :
     volumePositions (a :: b :: l) rowCos colCos (some h) am
-      = volumePositionsMany (a :: b :: l) a rowCos colCos (some h) am := by
+      = volumePositionsMany (a :: b :: l) a rowCos colCos (some h) am true := by
   unfold volumePositions; rw [normHint_pos hh]
 
 /-- **Positions on a line read back at their own multiples**: frames whose positions are
@@ -420,10 +422,11 @@ theorem volumePositions_line (rowCos colCos base : V3) (sp : Rat) (hsp : 0 < sp)
     simp [defaultSpacing]
   | e0 :: e1 :: t, _ =>
     have key : volumePositions ((e0 :: e1 :: t).map (linePos n base sp)) rowCos colCos (some sp) true
-        = volumePositionsMany ((e0 :: e1 :: t).map (linePos n base sp)) (linePos n base sp e0) rowCos colCos (some sp) true := by
+        = volumePositionsMany ((e0 :: e1 :: t).map (linePos n base sp)) (linePos n base sp e0) rowCos colCos (some sp) true true := by
       rw [List.map_cons, List.map_cons, volumePositions_cons2 _ _ _ _ _ _ hsp]
     rw [key]
     unfold volumePositionsMany
+    simp only [Bool.not_true, Bool.false_and, Bool.false_eq_true, if_false]
     by_cases hall : ((e0 :: e1 :: t).map (linePos n base sp)).all (fun p => p == linePos n base sp e0) = true
     · rw [if_pos hall]
       have heq : ∀ e ∈ e0 :: e1 :: t, e = e0 := by
@@ -619,31 +622,34 @@ def lineAff (st : Stack) (base : V3) (sp : Rat) (emin : Int) : Aff :=
     linePos (normal st.rowCos st.colCos) base sp emin⟩
 
 /-- **Stack recognition for frames on a line** with any accepted slice request. -/
-theorem stackedGeometry_line (st : Stack) (hst : StackOK st) (base : V3) (sp : Rat) (hsp : 0 < sp)
+theorem stackedGeometry_line_gen (am : Bool) (st : Stack) (hst : StackOK st) (base : V3) (sp : Rat) (hsp : 0 < sp)
     (es : List Int) (hes : es ≠ []) (hpos : st.pos = es.map (linePos (normal st.rowCos st.colCos) base sp))
-    (hhint : st.hint = some sp) (rows cols : Int) :
+    (hvp : ∃ emin ∈ es, (∀ e ∈ es, emin ≤ e) ∧
+      volumePositions (es.map (linePos (normal st.rowCos st.colCos) base sp)) st.rowCos st.colCos st.hint am
+        = .ok (some (sp, es.map (fun e => e - emin))))
+    (rows cols : Int) :
     ∃ emin ∈ es, ∃ emax ∈ es, (∀ e ∈ es, emin ≤ e ∧ e ≤ emax) ∧
       (∀ (ss se : Option Int) (asIdx : Bool) (s e : Int), sliceSpec ss se (emax - emin + 1) asIdx = some (s, e) →
-        stackedGeometry st rows cols true ss se asIdx
+        stackedGeometry st rows cols am ss se asIdx
           = .ok { aff := (lineAff st base sp emin).shift s 0 0, n := e - s, rows := rows, cols := cols,
                   frames := framePositions (es.map (fun x => x - emin)) s e }) ∧
       (∀ (ss se : Option Int) (asIdx : Bool), sliceSpec ss se (emax - emin + 1) asIdx = none →
-        ∃ k, stackedGeometry st rows cols true ss se asIdx = .error k) := by
-  obtain ⟨emin, hemin, hmin, hvp⟩ := volumePositions_line st.rowCos st.colCos base sp hsp hst.unitN es hes
+        ∃ k, stackedGeometry st rows cols am ss se asIdx = .error k) := by
+  obtain ⟨emin, hemin, hmin, hvp⟩ := hvp
   obtain ⟨emax, hemax, hmax, hM⟩ := listMaxInt_offsets es emin hemin hmin
   refine ⟨emin, hemin, emax, hemax, fun e he => ⟨hmin e he, hmax e he⟩, ?_, ?_⟩
   rotate_left
   · intro ss se asIdx hreq
     obtain ⟨k, hk⟩ := stdSlice_refuses ss se (emax - emin + 1) asIdx hreq
     unfold stackedGeometry
-    rw [hpos, hhint, hvp]
+    rw [hpos, hvp]
     simp only [hM, stackInitialSlices_eq]
     rw [hk]
     exact ⟨k, rfl⟩
   intro ss se asIdx s e hreq
   have hrange := sliceSpec_range hreq
   unfold stackedGeometry
-  rw [hpos, hhint, hvp]
+  rw [hpos, hvp]
   simp only [hM, stackInitialSlices_eq]
   rw [(stdSlice_ok_iff ss se (emax - emin + 1) asIdx (s, e)).mpr hreq]
   simp only
@@ -667,6 +673,20 @@ theorem stackedGeometry_line (st : Stack) (hst : StackOK st) (base : V3) (sp : R
   rfl
 
 
+/-- `allow_missing_positions=True` (segmentations) with the recorded spacing as hint -/
+theorem stackedGeometry_line (st : Stack) (hst : StackOK st) (base : V3) (sp : Rat) (hsp : 0 < sp)
+    (es : List Int) (hes : es ≠ []) (hpos : st.pos = es.map (linePos (normal st.rowCos st.colCos) base sp))
+    (hhint : st.hint = some sp) (rows cols : Int) :
+    ∃ emin ∈ es, ∃ emax ∈ es, (∀ e ∈ es, emin ≤ e ∧ e ≤ emax) ∧
+      (∀ (ss se : Option Int) (asIdx : Bool) (s e : Int), sliceSpec ss se (emax - emin + 1) asIdx = some (s, e) →
+        stackedGeometry st rows cols true ss se asIdx
+          = .ok { aff := (lineAff st base sp emin).shift s 0 0, n := e - s, rows := rows, cols := cols,
+                  frames := framePositions (es.map (fun x => x - emin)) s e }) ∧
+      (∀ (ss se : Option Int) (asIdx : Bool), sliceSpec ss se (emax - emin + 1) asIdx = none →
+        ∃ k, stackedGeometry st rows cols true ss se asIdx = .error k) :=
+  stackedGeometry_line_gen true st hst base sp hsp es hes hpos
+    (by rw [hhint]; exact volumePositions_line st.rowCos st.colCos base sp hsp hst.unitN es hes) rows cols
+
 /-- C04's per-argument specification of T3 and the Python-slice specification say the same for non-empty regions -/
 theorem rowSpec_iff (rs re : Option Int) (n : Int) (ai : Bool) (a b : Int) :
     (normStart rs n ai = some (a + 1) ∧ normEnd re n ai = some (b + 1) ∧ a < b) ↔ sliceSpec rs re n ai = some (a, b) := by
@@ -684,24 +704,27 @@ theorem stdRowCol_idx_spec (rs re cs ce : Option Int) (rows cols : Int) (ai : Bo
 
 /-- **Sub-volume of a stack on a line**: an accepted request returns the block it means, with the affine
 translated to the position of the block's first voxel. -/
-theorem getVolumeStack_line (k : Kind) (st : Stack) (hst : StackOK st) (base : V3) (sp : Rat) (hsp : 0 < sp)
+theorem getVolumeStack_line_gen (am : Bool) (k : Kind) (st : Stack) (hst : StackOK st) (base : V3) (sp : Rat) (hsp : 0 < sp)
     (es : List Int) (hes : es ≠ []) (hpos : st.pos = es.map (linePos (normal st.rowCos st.colCos) base sp))
-    (hhint : st.hint = some sp) (rows cols : Int) :
+    (hvp : ∃ emin ∈ es, (∀ e ∈ es, emin ≤ e) ∧
+      volumePositions (es.map (linePos (normal st.rowCos st.colCos) base sp)) st.rowCos st.colCos st.hint am
+        = .ok (some (sp, es.map (fun e => e - emin))))
+    (rows cols : Int) :
     ∃ emin ∈ es, ∃ emax ∈ es, (∀ e ∈ es, emin ≤ e ∧ e ≤ emax) ∧
       (∀ (rq : Request) (s0 e0 s1 e1 s2 e2 : Int),
         sliceSpec rq.sliceStart rq.sliceEnd (emax - emin + 1) rq.asIdx = some (s0, e0) →
         sliceSpec rq.rowStart rq.rowEnd rows rq.asIdx = some (s1, e1) →
         sliceSpec rq.colStart rq.colEnd cols rq.asIdx = some (s2, e2) →
-        getVolumeStack k st rows cols true rq
+        getVolumeStack k st rows cols am rq
           = .ok { aff := (lineAff st base sp emin).shift s0 s1 s2, n := e0 - s0, rows := e1 - s1, cols := e2 - s2,
                   frames := framePositions (es.map (fun x => x - emin)) s0 e0, rowFirst := s1, colFirst := s2 }) ∧
       (∀ (rq : Request),
         (sliceSpec rq.sliceStart rq.sliceEnd (emax - emin + 1) rq.asIdx = none ∨
          sliceSpec rq.rowStart rq.rowEnd rows rq.asIdx = none ∨
          sliceSpec rq.colStart rq.colEnd cols rq.asIdx = none) →
-        ∃ kk, getVolumeStack k st rows cols true rq = .error kk) := by
+        ∃ kk, getVolumeStack k st rows cols am rq = .error kk) := by
   obtain ⟨emin, hemin, emax, hemax, hb, hsg, hsgr⟩ :=
-    stackedGeometry_line st hst base sp hsp es hes hpos hhint rows cols
+    stackedGeometry_line_gen am st hst base sp hsp es hes hpos hvp rows cols
   refine ⟨emin, hemin, emax, hemax, hb, ?_, ?_⟩
   rotate_left
   · intro rq hbad
@@ -715,7 +738,7 @@ theorem getVolumeStack_line (k : Kind) (st : Stack) (hst : StackOK st) (base : V
       obtain ⟨n1, n2, n3, n4⟩ := (stdRowCol_ok_iff _ _ _ _ _ _ _ _ a b c d).mp hT3
       have e1 : outShift true = 1 := rfl
       rw [e1] at n1 n2 n3 n4
-      cases hsgv : stackedGeometry st rows cols true rq.sliceStart rq.sliceEnd rq.asIdx with
+      cases hsgv : stackedGeometry st rows cols am rq.sliceStart rq.sliceEnd rq.asIdx with
       | error k => exact ⟨k, rfl⟩
       | ok sg =>
         simp only [stackArraySliceOf_eq, stackGeomSliceOf_eq]
@@ -752,6 +775,26 @@ theorem getVolumeStack_line (k : Kind) (st : Stack) (hst : StackOK st) (base : V
   simp
 
 
+
+/-- `allow_missing_positions=True` (segmentations) with the recorded spacing as hint -/
+theorem getVolumeStack_line (k : Kind) (st : Stack) (hst : StackOK st) (base : V3) (sp : Rat) (hsp : 0 < sp)
+    (es : List Int) (hes : es ≠ []) (hpos : st.pos = es.map (linePos (normal st.rowCos st.colCos) base sp))
+    (hhint : st.hint = some sp) (rows cols : Int) :
+    ∃ emin ∈ es, ∃ emax ∈ es, (∀ e ∈ es, emin ≤ e ∧ e ≤ emax) ∧
+      (∀ (rq : Request) (s0 e0 s1 e1 s2 e2 : Int),
+        sliceSpec rq.sliceStart rq.sliceEnd (emax - emin + 1) rq.asIdx = some (s0, e0) →
+        sliceSpec rq.rowStart rq.rowEnd rows rq.asIdx = some (s1, e1) →
+        sliceSpec rq.colStart rq.colEnd cols rq.asIdx = some (s2, e2) →
+        getVolumeStack k st rows cols true rq
+          = .ok { aff := (lineAff st base sp emin).shift s0 s1 s2, n := e0 - s0, rows := e1 - s1, cols := e2 - s2,
+                  frames := framePositions (es.map (fun x => x - emin)) s0 e0, rowFirst := s1, colFirst := s2 }) ∧
+      (∀ (rq : Request),
+        (sliceSpec rq.sliceStart rq.sliceEnd (emax - emin + 1) rq.asIdx = none ∨
+         sliceSpec rq.rowStart rq.rowEnd rows rq.asIdx = none ∨
+         sliceSpec rq.colStart rq.colEnd cols rq.asIdx = none) →
+        ∃ kk, getVolumeStack k st rows cols true rq = .error kk) :=
+  getVolumeStack_line_gen true k st hst base sp hsp es hes hpos
+    (by rw [hhint]; exact volumePositions_line st.rowCos st.colCos base sp hsp hst.unitN es hes) rows cols
 
 /-! ## volume → stored stack → volume -/
 
@@ -1282,6 +1325,402 @@ theorem aff_ext_of_apply (a b : Aff) (h : ∀ v r c : Int, a.apply v r c = b.app
   obtain ⟨e3x, e3y, e3z⟩ := e3
   refine ⟨⟨by linarith, by linarith, by linarith⟩, ⟨by linarith, by linarith, by linarith⟩,
     ⟨by linarith, by linarith, by linarith⟩, ⟨e0x, e0y, e0z⟩⟩
+
+
+/-! ## strict branch of `get_volume_positions` (complete stacks, `Image.get_volume`, spacing inference) -/
+
+theorem mem_dedup (a : V3) (l : List V3) : a ∈ dedup l ↔ a ∈ l := by
+  induction l with
+  | nil => simp [dedup]
+  | cons b t ih =>
+    simp only [dedup, List.mem_cons, List.mem_filter, ih, bne_iff_ne, ne_eq]
+    constructor
+    · rintro (h | ⟨h, _⟩)
+      · exact Or.inl h
+      · exact Or.inr h
+    · rintro (h | h)
+      · exact Or.inl h
+      · by_cases hab : a = b
+        · exact Or.inl hab
+        · exact Or.inr ⟨h, hab⟩
+
+theorem nodup_dedup (l : List V3) : (dedup l).Nodup := by
+  induction l with
+  | nil => simp [dedup]
+  | cons b t ih =>
+    simp only [dedup, List.nodup_cons, List.mem_filter, bne_iff_ne, ne_eq, not_true_eq_false, and_false,
+      not_false_eq_true, true_and]
+    exact ih.filter _
+
+theorem insertSorted_perm (a : Rat) (l : List Rat) : (insertSorted a l).Perm (a :: l) := by
+  induction l with
+  | nil => simp [insertSorted]
+  | cons b t ih =>
+    unfold insertSorted
+    split
+    · exact List.Perm.refl _
+    · exact (List.Perm.cons b ih).trans (List.Perm.swap a b t)
+
+theorem sortRat_perm (l : List Rat) : (sortRat l).Perm l := by
+  induction l with
+  | nil => simp [sortRat]
+  | cons a t ih =>
+    unfold sortRat
+    exact (insertSorted_perm a (sortRat t)).trans (List.Perm.cons a ih)
+
+theorem insertSorted_sorted (a : Rat) (l : List Rat) (h : l.Pairwise (· ≤ ·)) : (insertSorted a l).Pairwise (· ≤ ·) := by
+  induction l with
+  | nil => simp [insertSorted]
+  | cons b t ih =>
+    unfold insertSorted
+    split
+    · rename_i hab
+      rw [List.pairwise_cons]
+      refine ⟨?_, h⟩
+      intro x hx
+      rcases List.mem_cons.mp hx with rfl | hx
+      · exact hab
+      · exact le_trans hab (List.rel_of_pairwise_cons h hx)
+    · rename_i hab
+      rw [List.pairwise_cons]
+      refine ⟨?_, ih h.tail⟩
+      intro x hx
+      have := (insertSorted_perm a t).subset hx
+      rcases List.mem_cons.mp this with rfl | hx'
+      · exact le_of_lt (not_le.mp hab)
+      · exact List.rel_of_pairwise_cons h hx'
+
+theorem sortRat_sorted (l : List Rat) : (sortRat l).Pairwise (· ≤ ·) := by
+  induction l with
+  | nil => simp [sortRat]
+  | cons a t ih => unfold sortRat; exact insertSorted_sorted a _ ih
+
+/-- arithmetic progression of distances `c + (emin + j)·sp`, `j = 0..m` -/
+def prog (c sp : Rat) (emin : Int) (m : Nat) : List Rat :=
+  (List.range (m + 1)).map (fun (j : Nat) => c + (((emin + (j : Int)) : Int) : Rat) * sp)
+
+theorem prog_sorted (c sp : Rat) (hsp : 0 < sp) (emin : Int) (m : Nat) : (prog c sp emin m).Pairwise (· ≤ ·) := by
+  unfold prog
+  rw [List.pairwise_map]
+  refine List.Pairwise.imp ?_ (List.pairwise_lt_range (n := m + 1))
+  intro a b hab
+  have : ((emin + (a : Int) : Int) : Rat) ≤ ((emin + (b : Int) : Int) : Rat) := by exact_mod_cast (by omega : emin + (a : Int) ≤ emin + (b : Int))
+  nlinarith
+
+theorem mem_diffs (l : List Rat) (d : Rat) (h : d ∈ diffs l) :
+    ∃ i, ∃ (h1 : i + 1 < l.length), d = l[i + 1] - l[i] := by
+  induction l with
+  | nil => simp [diffs] at h
+  | cons a t ih =>
+    cases t with
+    | nil => simp [diffs] at h
+    | cons b t' =>
+      simp only [diffs, List.mem_cons] at h
+      rcases h with rfl | h
+      · exact ⟨0, by simp, by simp⟩
+      · obtain ⟨i, h1, hd⟩ := ih h
+        exact ⟨i + 1, by simp at h1 ⊢; omega, by simpa using hd⟩
+
+theorem prog_getElem (c sp : Rat) (emin : Int) (m i : Nat) (h : i < (prog c sp emin m).length) :
+    (prog c sp emin m)[i] = c + (((emin + (i : Int)) : Int) : Rat) * sp := by
+  simp [prog]
+
+theorem diffs_prog (c sp : Rat) (emin : Int) (m : Nat) : ∀ d ∈ diffs (prog c sp emin m), d = sp := by
+  intro d hd
+  obtain ⟨i, h1, rfl⟩ := mem_diffs _ d hd
+  rw [prog_getElem, prog_getElem]
+  push_cast
+  ring
+
+
+theorem range_filter_lt (n k : Nat) (h : k ≤ n) : ((List.range n).filter (fun j => decide (j < k))).length = k := by
+  induction n with
+  | zero => simp at h; simp [h]
+  | succ n ih =>
+    rw [List.range_succ, List.filter_append, List.length_append]
+    by_cases hk : k ≤ n
+    · rw [ih hk]
+      have : ¬ (n < k) := by omega
+      simp [this]
+    · have hk' : k = n + 1 := by omega
+      have hall : (List.range n).filter (fun j => decide (j < k)) = List.range n := by
+        apply List.filter_eq_self.mpr
+        intro j hj
+        have := List.mem_range.mp hj
+        simp; omega
+      rw [hall]
+      have : n < k := by omega
+      simp [this, hk']
+
+theorem prog_nodup (c sp : Rat) (hsp : 0 < sp) (emin : Int) (m : Nat) : (prog c sp emin m).Nodup := by
+  unfold prog
+  apply List.Nodup.map_on _ List.nodup_range
+  intro x _ y _ hxy
+  have : (((emin + (x : Int)) : Int) : Rat) * sp = (((emin + (y : Int)) : Int) : Rat) * sp := by linarith
+  have h2 := mul_right_cancel₀ (ne_of_gt hsp) this
+  have : emin + (x : Int) = emin + (y : Int) := by exact_mod_cast h2
+  omega
+
+theorem mem_prog (c sp : Rat) (emin : Int) (m : Nat) (d : Rat) :
+    d ∈ prog c sp emin m ↔ ∃ z : Int, emin ≤ z ∧ z ≤ emin + m ∧ d = c + (z : Rat) * sp := by
+  unfold prog
+  simp only [List.mem_map, List.mem_range]
+  constructor
+  · rintro ⟨j, hj, rfl⟩
+    exact ⟨emin + j, by omega, by omega, rfl⟩
+  · rintro ⟨z, h1, h2, rfl⟩
+    refine ⟨(z - emin).toNat, by omega, ?_⟩
+    have : emin + ((z - emin).toNat : Int) = z := by omega
+    rw [this]
+
+/-- the distinct distances of a complete stack on a line are, up to order, the arithmetic progression -/
+theorem du_perm_prog (n base : V3) (sp : Rat) (hsp : 0 < sp) (hn : dot n n = 1) (es : List Int) (emin emax : Int)
+    (hb : ∀ e ∈ es, emin ≤ e ∧ e ≤ emax) (hcomplete : ∀ z, emin ≤ z → z ≤ emax → z ∈ es) (hle : emin ≤ emax) :
+    ((dedup (es.map (linePos n base sp))).map (dot n)).Perm (prog (dot n base) sp emin (emax - emin).toNat) := by
+  rw [List.perm_ext_iff_of_nodup]
+  · intro d
+    rw [mem_prog]
+    simp only [List.mem_map, mem_dedup]
+    constructor
+    · rintro ⟨p, ⟨e, he, rfl⟩, rfl⟩
+      exact ⟨e, (hb e he).1, by have := (hb e he).2; omega, dot_linePos _ _ _ _ hn⟩
+    · rintro ⟨z, h1, h2, rfl⟩
+      exact ⟨linePos n base sp z, ⟨z, hcomplete z h1 (by omega), rfl⟩, dot_linePos _ _ _ _ hn⟩
+  · apply List.Nodup.map_on _ (nodup_dedup _)
+    intro x hx y hy hxy
+    rw [mem_dedup] at hx hy
+    obtain ⟨e, _, rfl⟩ := List.mem_map.mp hx
+    obtain ⟨e', _, rfl⟩ := List.mem_map.mp hy
+    rw [linePos_inj n base sp hsp hn e e' hxy]
+  · exact prog_nodup _ _ hsp _ _
+
+theorem sort_du_eq_prog (n base : V3) (sp : Rat) (hsp : 0 < sp) (hn : dot n n = 1) (es : List Int) (emin emax : Int)
+    (hb : ∀ e ∈ es, emin ≤ e ∧ e ≤ emax) (hcomplete : ∀ z, emin ≤ z → z ≤ emax → z ∈ es) (hle : emin ≤ emax) :
+    sortRat ((dedup (es.map (linePos n base sp))).map (dot n)) = prog (dot n base) sp emin (emax - emin).toNat := by
+  apply List.Perm.eq_of_pairwise (le := (· ≤ ·))
+  · intro a b _ _ h1 h2; exact le_antisymm h1 h2
+  · exact sortRat_sorted _
+  · exact prog_sorted _ _ hsp _ _
+  · exact (sortRat_perm _).trans (du_perm_prog n base sp hsp hn es emin emax hb hcomplete hle)
+
+
+theorem regularStrict_line (n base : V3) (sp : Rat) (hsp : 0 < sp) (hn : dot n n = 1) (es : List Int) (emin emax : Int)
+    (hb : ∀ e ∈ es, emin ≤ e ∧ e ≤ emax) (hcomplete : ∀ z, emin ≤ z → z ≤ emax → z ∈ es) (hlt : emin < emax)
+    (hint : Option Rat) (hhint : hint = none ∨ hint = some sp) :
+    regularStrict (es.map (fun (e : Int) => dot n base + (e : Rat) * sp))
+        ((dedup (es.map (linePos n base sp))).map (dot n))
+        (dot n base + (emin : Rat) * sp) (dot n base + (emax : Rat) * sp) hint true
+      = .ok (some (sp, es.map (fun e => e - emin))) := by
+  set c := dot n base with hc
+  set du := (dedup (es.map (linePos n base sp))).map (dot n) with hdu
+  have hperm := du_perm_prog n base sp hsp hn es emin emax hb hcomplete (le_of_lt hlt)
+  have hsort := sort_du_eq_prog n base sp hsp hn es emin emax hb hcomplete (le_of_lt hlt)
+  rw [← hdu, ← hc] at hperm hsort
+  have hlen : du.length = (emax - emin).toNat + 1 := by
+    rw [hperm.length_eq]; simp [prog]
+  have hm : (((emax - emin).toNat : Int) : Rat) = (emax : Rat) - emin := by
+    have : ((emax - emin).toNat : Int) = emax - emin := by omega
+    rw [this]; push_cast; ring
+  have hsp' : (c + (emax : Rat) * sp - (c + (emin : Rat) * sp)) / ((((du.length : Nat) : Int) : Rat) - 1) = sp := by
+    rw [hlen]
+    push_cast
+    have hm' : (((emax - emin).toNat : Nat) : Rat) = (emax : Rat) - emin := by
+      have := hm; push_cast at this; exact this
+    rw [hm']
+    have hne : (emax : Rat) - emin ≠ 0 := by
+      have : (emin : Rat) < emax := by exact_mod_cast hlt
+      linarith
+    have e1 : c + (emax : Rat) * sp - (c + (emin : Rat) * sp) = ((emax : Rat) - emin) * sp := by ring
+    rw [e1, add_sub_cancel_right, mul_div_cancel_left₀ sp hne]
+  unfold regularStrict
+  simp only [hsp', hsort]
+  have hbad : hintMismatch sp hint = false := by
+    rcases hhint with rfl | rfl
+    · rfl
+    · simp [hintMismatch, rabs_of_pos hsp, isClose_self]
+  rw [hbad]
+  simp only [Bool.false_eq_true, if_false]
+  have hreg : (diffs (prog c sp emin (emax - emin).toNat)).all (fun d => isClose d sp tolSpacing) = true := by
+    rw [List.all_eq_true]
+    intro d hd
+    rw [diffs_prog c sp emin _ d hd]
+    exact isClose_self sp
+  rw [hreg]
+  simp only [Bool.and_self, if_true, rabs_of_pos hsp]
+  congr 3
+  rw [List.map_map]
+  apply List.map_congr_left
+  intro e he
+  simp only [Function.comp]
+  have hbe := hb e he
+  -- rank = number of distinct distances below
+  have hcount : (du.filter (fun x => decide (x < c + (e : Rat) * sp))).length
+      = ((prog c sp emin (emax - emin).toNat).filter (fun x => decide (x < c + (e : Rat) * sp))).length :=
+    (hperm.filter _).length_eq
+  rw [hcount]
+  unfold prog
+  rw [List.filter_map, List.length_map]
+  have hfun : ((fun x => decide (x < c + (e : Rat) * sp)) ∘ fun (j : Nat) => c + (((emin + (j : Int)) : Int) : Rat) * sp)
+      = fun (j : Nat) => decide (j < (e - emin).toNat) := by
+    funext j
+    simp only [Function.comp, decide_eq_decide]
+    constructor
+    · intro h
+      have h1 : (((emin + (j : Int)) : Int) : Rat) < (e : Rat) := by nlinarith
+      have : emin + (j : Int) < e := by exact_mod_cast h1
+      omega
+    · intro h
+      have : emin + (j : Int) < e := by omega
+      have h1 : (((emin + (j : Int)) : Int) : Rat) < (e : Rat) := by exact_mod_cast this
+      nlinarith
+  rw [hfun, range_filter_lt _ _ (by omega)]
+  omega
+
+
+theorem dedup_of_nodup (l : List V3) (h : l.Nodup) : dedup l = l := by
+  induction l with
+  | nil => rfl
+  | cons a t ih =>
+    rw [List.nodup_cons] at h
+    simp only [dedup, ih h.2]
+    congr 1
+    apply List.filter_eq_self.mpr
+    intro b hb
+    simp only [bne_iff_ne, ne_eq]
+    intro hba
+    exact h.1 (hba ▸ hb)
+
+theorem linePos_nodup (n base : V3) (sp : Rat) (hsp : 0 < sp) (hn : dot n n = 1) (es : List Int) (h : es.Nodup) :
+    (es.map (linePos n base sp)).Nodup := by
+  apply List.Nodup.map_on _ h
+  intro x _ y _ hxy
+  exact linePos_inj n base sp hsp hn x y (by rw [hxy])
+
+theorem normHint_none : normHint none = .ok none := rfl
+
+/-- **Complete stacks in the strict branch** (`allow_missing_positions=False`: `Image.get_volume`, and the
+inference of SpacingBetweenSlices when a segmentation is created): frames at `base + (e·sp)·n` whose multiples
+`e` fill an interval of at least two integers (any order, repetitions allowed), with no hint or the true spacing
+as hint, get spacing `sp` and the volume positions `e − min e`. -/
+theorem volumePositions_line_strict (rowCos colCos base : V3) (sp : Rat) (hsp : 0 < sp)
+    (hn : dot (normal rowCos colCos) (normal rowCos colCos) = 1) (es : List Int) (emin emax : Int)
+    (hemin : emin ∈ es) (hemax : emax ∈ es) (hb : ∀ e ∈ es, emin ≤ e ∧ e ≤ emax)
+    (hcomplete : ∀ z, emin ≤ z → z ≤ emax → z ∈ es) (hlt : emin < emax)
+    (hint : Option Rat) (hhint : hint = none ∨ hint = some sp) (allowDup : Bool) (hdup : allowDup = true ∨ es.Nodup) :
+    volumePositions (es.map (linePos (normal rowCos colCos) base sp)) rowCos colCos hint false allowDup
+      = .ok (some (sp, es.map (fun e => e - emin))) := by
+  set n := normal rowCos colCos with hnd
+  have hnodup : (!allowDup && decide ((dedup (es.map (linePos n base sp))).length < (es.map (linePos n base sp)).length)) = false := by
+    rcases hdup with rfl | hnd'
+    · rfl
+    · rw [dedup_of_nodup _ (linePos_nodup n base sp hsp hn es hnd')]
+      simp
+  have hnh : normHint hint = .ok hint := by
+    rcases hhint with rfl | rfl
+    · rfl
+    · exact normHint_pos hsp
+  match es, hemin, hemax, hb, hcomplete, hnodup with
+  | [e], hemin, hemax, _, _, _ =>
+    simp only [List.mem_singleton] at hemin hemax
+    omega
+  | e0 :: e1 :: t, hemin, hemax, hb, hcomplete, hnodup =>
+    have key : volumePositions ((e0 :: e1 :: t).map (linePos n base sp)) rowCos colCos hint false allowDup
+        = volumePositionsMany ((e0 :: e1 :: t).map (linePos n base sp)) (linePos n base sp e0) rowCos colCos hint false allowDup := by
+      rw [List.map_cons, List.map_cons]
+      unfold volumePositions
+      rw [hnh]
+    rw [key]
+    unfold volumePositionsMany
+    rw [hnodup]
+    simp only [Bool.false_eq_true, if_false]
+    have hall : ¬ (((e0 :: e1 :: t).map (linePos n base sp)).all (fun p => p == linePos n base sp e0) = true) := by
+      intro hall
+      rw [List.all_eq_true] at hall
+      have h1 := hall (linePos n base sp emin) (List.mem_map.mpr ⟨emin, hemin, rfl⟩)
+      have h2 := hall (linePos n base sp emax) (List.mem_map.mpr ⟨emax, hemax, rfl⟩)
+      simp only [beq_iff_eq] at h1 h2
+      have := linePos_inj n base sp hsp hn emin emax (by rw [h1, h2])
+      omega
+    rw [if_neg hall]
+    obtain ⟨emin', hemin', emax', hemax', hbound, hext⟩ := extremes_line n base sp hsp hn e0 (e1 :: t)
+    have e1' : emin' = emin := by
+      have := (hbound emin hemin).1; have := (hb emin' hemin').1; omega
+    have e2' : emax' = emax := by
+      have := (hbound emax hemax).2; have := (hb emax' hemax').2; omega
+    subst e1' e2'
+    simp only [← hnd, hext]
+    have hds : ((e0 :: e1 :: t).map (linePos n base sp)).map (dot n)
+        = (e0 :: e1 :: t).map (fun (e : Int) => dot n base + (e : Rat) * sp) := by
+      rw [List.map_map]; apply List.map_congr_left; intro e _; simp [dot_linePos _ _ _ _ hn]
+    have hperp : isPerp n (sub (linePos n base sp emax') (linePos n base sp emin')) = true := by
+      rw [sub_linePos]
+      apply isPerp_line n _ hn
+      have : ((emax' : Rat) - emin') ≠ 0 := by
+        have : (emin' : Rat) < emax' := by exact_mod_cast hlt
+        linarith
+      exact mul_ne_zero this (ne_of_gt hsp)
+    rw [hperp, hds]
+    exact regularStrict_line n base sp hsp hn _ emin' emax' hb hcomplete hlt hint hhint
+
+
+theorem mapM_getElem?_map {α β : Type} (f : α → β) (l : List α) (ks : List Nat) (vs : List α)
+    (h : ks.mapM (fun k => l[k]?) = some vs) : ks.mapM (fun k => (l.map f)[k]?) = some (vs.map f) := by
+  induction ks generalizing vs with
+  | nil => simp at h ⊢; exact h ▸ rfl
+  | cons a t ih =>
+    rw [List.mapM_cons] at h ⊢
+    rw [List.getElem?_map]
+    cases ha : l[a]? with
+    | none => rw [ha] at h; simp at h
+    | some v =>
+      rw [ha] at h
+      simp only [Option.pure_def, Option.bind_eq_bind, Option.bind_some, Option.map_some] at h ⊢
+      cases ht : t.mapM (fun k => l[k]?) with
+      | none => rw [ht] at h; simp at h
+      | some vt =>
+        rw [ht] at h
+        simp only [Option.bind_some, Option.some.injEq] at h
+        subst h
+        rw [ih vt ht]
+        simp
+
+theorem mapM_getElem?_mem {α : Type} (l : List α) (ks : List Nat) (vs : List α)
+    (h : ks.mapM (fun k => l[k]?) = some vs) : ∀ v ∈ vs, v ∈ l := by
+  induction ks generalizing vs with
+  | nil => simp at h; subst h; simp
+  | cons a t ih =>
+    rw [List.mapM_cons] at h
+    cases ha : l[a]? with
+    | none => rw [ha] at h; simp at h
+    | some v =>
+      rw [ha] at h
+      simp only [Option.pure_def, Option.bind_eq_bind, Option.bind_some] at h
+      cases ht : t.mapM (fun k => l[k]?) with
+      | none => rw [ht] at h; simp at h
+      | some vt =>
+        rw [ht] at h
+        simp only [Option.bind_some, Option.some.injEq] at h
+        subst h
+        intro x hx
+        rcases List.mem_cons.mp hx with rfl | hx
+        · exact List.mem_of_getElem? ha
+        · exact ih vt ht x hx
+
+/-- **The spacing a segmentation records for a regular source stack is the stack's spacing**: source planes at
+`base + (e·sp)·n`, the `e` pairwise different and filling an interval of at least two integers, in any order;
+a value already present in the source's pixel measures is kept. -/
+theorem recordedHint_regular (rowCos colCos base : V3) (sp : Rat) (hsp : 0 < sp)
+    (hn : dot (normal rowCos colCos) (normal rowCos colCos) = 1) (es : List Int) (emin emax : Int)
+    (hemin : emin ∈ es) (hemax : emax ∈ es) (hb : ∀ e ∈ es, emin ≤ e ∧ e ≤ emax)
+    (hcomplete : ∀ z, emin ≤ z → z ≤ emax → z ∈ es) (hlt : emin < emax) (hnodup : es.Nodup)
+    (srcHint : Option Rat) (hsrc : srcHint = none ∨ srcHint = some sp) :
+    recordedHint srcHint (es.map (linePos (normal rowCos colCos) base sp)) rowCos colCos = .ok (some sp) := by
+  unfold recordedHint
+  rcases hsrc with rfl | rfl
+  · simp only
+    rw [volumePositions_line_strict rowCos colCos base sp hsp hn es emin emax hemin hemax hb hcomplete hlt none
+      (Or.inl rfl) false (Or.inr hnodup)]
+  · rfl
 
 
 end HdVerif.SegGeomLemmas
